@@ -1006,6 +1006,16 @@ template <class D> struct Hist {
   }
 
   // ---- widening chains (C05b) ----------------------------------------------------------------------
+  // x_{i+1} = x_i widen y_i where every y_i is decoded separately: the image of
+  // x_i under one of a few decoded loop bodies (what the fixpoint iterator feeds
+  // to widening) or an independent "arbitrary further value" (a box around a
+  // decoded state); optionally joined with x_i first; with or without thresholds;
+  // with interleaved normalising queries.
+  struct Body {
+    std::vector<std::pair<var_t, lin_t>> asg;
+    bool use_guard = false;
+    cst_t guard;
+  };
   void run_chain() {
     D top;
     unsigned n = (unsigned)u.ints.size();
@@ -1013,57 +1023,104 @@ template <class D> struct Hist {
     crab::thresholds<z_number> ts;
     for (unsigned q = 0; q < nthr; q++)
       ts.add(ikos::bound<z_number>(z_number(t.small_int(60))));
-    // x0: a reachable value built from a few constraints/assignments
     A.push_back(top.make_top());
     S.push_back(Slot());
     for (unsigned q = 0; q < 4; q++)
       S[0].W.push_back(random_state());
-    unsigned pre = 1 + t.pick(4);
 #ifdef VERIF_GENERIC
     G.push_back(generic_dom_t(top.make_top()));
 #endif
+    // start from a bounded value most of the time (so that there is something to extrapolate)
+    bool bounded_start = t.pick(4) != 3;
+    if (bounded_start) {
+      for (auto &v : u.ints) {
+        z_number c(t.small_int(5));
+        A[0].assign(v, lin_t(c));
+        for (auto &w : S[0].W)
+          w.num[v] = c;
+      }
+      dedup(S[0].W);
+    }
+    unsigned pre = t.pick(4);
     for (unsigned q = 0; q < pre; q++)
       transfer(0);
-    // pool of "further values" produced either independently or from x_i by transfer functions
     unsigned K = 8 * ((n + 1) * (n + 1) * (nthr + 3) + 4); // generous structural bound on strict increases
     unsigned L = 3 * K;
     if (L > 1500)
       L = 1500;
-    unsigned increases = 0, last_increase = 0;
+    unsigned increases = 0, last_increase = 0, independent = 0;
     bool with_join = t.flag();
     bool with_queries = t.flag();
-    // a small fixed program of transfer steps applied to x_i to obtain y_i (like a loop body)
-    unsigned body_len = 1 + t.pick(5);
-    std::vector<std::pair<var_t, lin_t>> body;
     std::set<var_t> dummy;
-    for (unsigned q = 0; q < body_len; q++)
-      body.push_back({ivar(), linexp(2, dummy)});
-    cst_t guard = constraint(dummy);
-    bool use_guard = t.flag();
-    ctx.log << "chain: thresholds=" << nthr << " join_first=" << with_join << " queries=" << with_queries << " body:";
-    for (auto &b : body)
-      ctx.log << " " << to_str(b.first) << ":=" << to_str(b.second) << ";";
-    if (use_guard)
-      ctx.log << " guard " << to_str(guard);
+    unsigned nb = 1 + t.pick(3);
+    std::vector<Body> bodies(nb);
+    for (auto &bd : bodies) {
+      unsigned len = 1 + t.pick(3);
+      for (unsigned q = 0; q < len; q++) {
+        var_t lhs = ivar();
+        // mostly increments/decrements of one variable, sometimes an arbitrary expression
+        if (t.pick(3) != 2)
+          bd.asg.push_back({lhs, lin_t(lhs) + lin_t(z_number(t.small_int(4)))});
+        else
+          bd.asg.push_back({lhs, linexp(2, dummy)});
+      }
+      bd.use_guard = t.pick(3) == 0;
+      bd.guard = constraint(dummy);
+    }
+    ctx.log << "chain: thresholds=" << nthr << " join_first=" << with_join << " queries=" << with_queries << " bounded_start=" << bounded_start;
+    for (unsigned q = 0; q < nb; q++) {
+      ctx.log << "\n  body" << q << ":";
+      for (auto &b : bodies[q].asg)
+        ctx.log << " " << to_str(b.first) << ":=" << to_str(b.second) << ";";
+      if (bodies[q].use_guard)
+        ctx.log << " guard " << to_str(bodies[q].guard);
+    }
     ctx.log << "\n";
     D x(A[0]);
     std::vector<State> wx = S[0].W;
+    unsigned quiet = 0;
     for (unsigned it = 0; it < L; it++) {
       D y(x);
       std::vector<State> wy;
-      if (use_guard) {
+      unsigned choice = t.pick(nb + 1);
+      if (choice == nb) {
+        // an arbitrary further value: a box (and a difference) around a decoded state
+        independent++;
+        State s = random_state();
         csts_t sys;
-        sys += guard;
+        for (auto &v : u.ints) {
+          unsigned k = t.pick(4);
+          z_number slack((int64_t)t.pick(4));
+          if (k == 0)
+            sys += cst_t(lin_t(v) == lin_t(s.num[v]));
+          else if (k == 1)
+            sys += cst_t(lin_t(v) <= lin_t(s.num[v] + slack));
+          else if (k == 2)
+            sys += cst_t(lin_t(v) >= lin_t(s.num[v] - slack));
+        }
+        if (n >= 2 && t.flag()) {
+          const var_t &a = ivar(), &b2 = ivar();
+          sys += cst_t(lin_t(a) - lin_t(b2) <= lin_t(s.num[a] - s.num[b2] + z_number((int64_t)t.pick(3))));
+        }
+        y = top.make_top();
         y += sys;
-      }
-      for (auto &b : body)
-        y.assign(b.first, b.second);
-      for (auto s : wx) {
-        if (use_guard && !holds(guard, s))
-          continue;
-        for (auto &b : body)
-          s.num[b.first] = ev(b.second, s);
         wy.push_back(s);
+      } else {
+        const Body &bd = bodies[choice];
+        if (bd.use_guard) {
+          csts_t sys;
+          sys += bd.guard;
+          y += sys;
+        }
+        for (auto &b : bd.asg)
+          y.assign(b.first, b.second);
+        for (auto s : wx) {
+          if (bd.use_guard && !holds(bd.guard, s))
+            continue;
+          for (auto &b : bd.asg)
+            s.num[b.first] = ev(b.second, s);
+          wy.push_back(s);
+        }
       }
       if (INT64_WEIGHTS && (large_magnitude(y, vars) || large_magnitude(x, vars)))
         throw Truncate{"int64_dbm_weights_large_magnitude"};
@@ -1088,15 +1145,21 @@ template <class D> struct Hist {
       if (inc) {
         increases++;
         last_increase = it;
-      }
+        quiet = 0;
+        if (ctx.verbose)
+          ctx.log << "  step " << it << " (y" << choice << ") strict increase -> " << to_str(nx) << "\n";
+      } else
+        quiet++;
       x = nx;
       wx = wn;
       if (wx.size() > 6)
-        wx.resize(6);
-      if (!inc && it > last_increase + 8)
-        break; // stationary for a while: the body is deterministic so it stays
+        wx.erase(wx.begin(), wx.end() - 6); // keep the most recent witnesses
+      // the remaining choices are all 0 once the tape is exhausted (body 0 for ever): stop
+      // after it has been stationary for a while; before that keep feeding further values
+      if (quiet > 8 && (t.exhausted() || quiet > 40))
+        break;
     }
-    ctx.log << "chain: strict increases=" << increases << " last at step " << last_increase << " bound K=" << K << "\n";
+    ctx.log << "chain: strict increases=" << increases << " last at step " << last_increase << " independent values=" << independent << " bound K=" << K << "\n";
     VCHECK(ctx, "C05", increases <= K, "chain_not_stationary",
            "widening chain still strictly increasing after " << increases << " increases (structural bound " << K << ", n=" << n << ", thresholds=" << nthr << ")");
     if (increases >= 2)
